@@ -227,7 +227,7 @@ def parse_unit(path):
             def add(l, f=cur_fn, k=k):
                 f.loops[k][1] += l + "\n"
             buf_target = add
-        elif d in ("%before", "%after", "%wrap", "%truncate", "%before@home", "%after@home"):
+        elif d in ("%before", "%after", "%wrap", "%truncate", "%before@home", "%after@home", "%past"):
             m = re.match(r"(\d+)\s+`(.*)`\s*$", arg)
             if not m:
                 raise SpecError(f"{src}:{n}: bad anchor syntax: {arg!r}")
